@@ -33,6 +33,9 @@ CLAIMED = {
  "C19": dict(level="exploration", oracle="per-ping oracle over the responder's delivery plan (identifier read from the ping's own echo request)",
    text="Concurrent simulation: 1-6 pinger tasks call Ping/Ping6 with timeouts from <=0 to >10 s while an echo responder inside the simulated wire answers each captured request after a chosen latency (before, at, after the deadline) or drops it, duplicates, answers with a foreign identifier, an echo request or a truncated message, and unsolicited replies with guessed identifiers arrive. nil iff a matching well-formed reply was delivered while pending (exact without stalls, one-directional with stalls), ErrTimeout exactly at the deadline, distinct identifiers for overlapping pings, no waiter left.",
    ref="DESIGN.md section 4 (C19)"),
+ "C14": dict(level="exploration", oracle="forged-NA classification vs call log; learned router vs the reference decoder's reading of the advertisements sent",
+   text="Concurrent simulation of the real ICMPv6 handler: API tasks call StartHunt/StopHunt with link-local, address-less, global and IPv4 targets while a router node sends router advertisements built from generated option lists (source LLA, prefixes, MTU, RDNSS, unknown types; boundary flags, preference and lifetimes) and hosts send neighbour solicitations; the 2-2.8 s spoof timers run on the virtual clock under seeded interleavings and, in a share of runs, stalls. Every neighbour advertisement written is decoded independently: forged ones must carry override and hop limit 255, go only to effectively hunted MACs, not precede the first RA, and stop after StopHunt/Close (virtual time, no stalls); after every settled RA FindRouter must equal the reference decoder's reading of one of the advertisements sent by that router.",
+   ref="DESIGN.md section 4 (C14)"),
 }
 
 NA = {
